@@ -31,8 +31,8 @@ class Lin:
     def const(v: int | Fraction) -> "Lin":
         return Lin(None, v)
 
-    def __add__(self, o: "Lin | int") -> "Lin":
-        if isinstance(o, int):
+    def __add__(self, o: "Lin | int | Fraction") -> "Lin":
+        if isinstance(o, (int, Fraction)):
             return Lin(self.co, self.c + o)
         co = dict(self.co)
         for k, v in o.co.items():
@@ -42,8 +42,8 @@ class Lin:
     def __neg__(self) -> "Lin":
         return Lin({k: -v for k, v in self.co.items()}, -self.c)
 
-    def __sub__(self, o: "Lin | int") -> "Lin":
-        if isinstance(o, int):
+    def __sub__(self, o: "Lin | int | Fraction") -> "Lin":
+        if isinstance(o, (int, Fraction)):
             return Lin(self.co, self.c - o)
         return self + (-o)
 
